@@ -723,7 +723,7 @@ class C10(Prop):
         "the assessment adds the informational keys notes / max_load_independently_for_nodes to the caller's parameter Series (notes grows with every call); that is outside the property (it does not change any result) and only counted (distribution.argument_keys_added); a CHANGED value of an existing key, a removed key or any change of the load sequence is a failure (class args-mutated): it changes what the next assessment with the same objects computes",
         "a load_step label is a label: the history is the row order of the Series (the docstring asks for consecutive labels from 0; increasing labels with other starts / steps and one shuffled labelling are accepted by the code and generated; labels DESCENDING by one are not generated by C10: the first run shifts its labels by +1, they then collide with labels of the second run, and until /repo commit 2dcaa8f FKMNonlinearRecorder._get_for_every_node, which inferred the number of points from runs of equal labels, raised ValueError - repaired by 2dcaa8f (filed under C05; C04 / C05 generate that layout), so the layout could be generated here as well; C10's generator has not been extended)",
         "oracle tolerances: batch vs single / refined vs base lifetimes 1e-8 (P_RAM) and 1e-6 (P_RAJ) relative (measured noise of the vectorised Newton tables: lifetimes <= 6e-12 (P_RAM) and <= 4e-11 (P_RAJ), recorded per run in distribution.max_rel_*); monotonicity 1e-6; verdicts compared only when P_max is more than 1e-3 away from the endurance value; running strain extremes batch vs single to 2e-5 of the largest strain of the history (the Seeger-Beste primary branch is solved to rtol 1e-5; tolerance kept from before the repair b50f603, measured deviation then 1.1e-6; since b50f603 the Seeger-Beste solver is a per-element bisection without scipy and without dependence on companion elements, and since 8e3c607 it stops at 5 % of tol + rtol |root| and interpolates with the analytic end values: a batch and a single run solve the same element the same way.  The tolerance 2e-5 has NOT been tightened after either commit; no separate measurement campaign was made, but every run records its largest deviation in distribution.max_rel_batch_LF (quick tier, seed 1, /repo 2da931b: 0.0)); scipy 'Failed to converge' (scipy.optimize.newton: the extended-Neuber tables and the closure-stress Newton iteration of the P_RAJ damage parameter; no longer the Seeger-Beste tables) is counted, not judged",
-        "finding classes are guarded in the oracle: batch-node-order (fixed by /repo commit 64dfe3b, so a failure of this class is reported, not tolerated) only for a batch whose node labels are not ascending; the open classes: mono-P_RAM-early-failure-count only across the early-failure boundary with n1 >= n2 + 2 first/second-pass hystereses and an increase <= n1 - n2 cycles (exactly the complement of the theorems' hypothesis Regime); mono-pa-above-half only for P_A > 0.5 compared with exactly 0.5; mono-P_RAJ-rough / -pa only with fewer than 1000 P_RAJ classes, an increase <= 60 % that vanishes (<= 3 %) when the same pair is re-run with 2000 classes; mono-P_RAJ-scale only when the P_RAJ value of one of the (same) hystereses is smaller in the scaled run (crack closure); mono-P_RAJ-scale-classing like -rough with an increase <= 2 %; anything else of the same relation is reported under another class",
+        "finding classes are guarded in the oracle: batch-node-order (fixed by /repo commit 64dfe3b, so a failure of this class is reported, not tolerated) only for a batch whose node labels are not ascending; the open classes: mono-P_RAM-early-failure-count only across the early-failure boundary with n1 >= n2 + 2 first/second-pass hystereses and an increase <= n1 - n2 cycles (exactly the complement of the theorems' hypothesis Regime); mono-pa-above-half only for P_A > 0.5 compared with exactly 0.5; mono-P_RAJ-rough / -pa only with fewer than 1000 P_RAJ classes, an increase <= 60 % that vanishes (<= 3 %) when the same pair is re-run with 2000 classes; mono-P_RAJ-scale only when the P_RAJ value of one of the (same) hystereses is smaller in the scaled run (crack closure); mono-P_RAJ-crack-opening-state only for roughness / P_A pairs with unchanged loads when the P_RAJ value of one of the (same) hystereses is smaller with the lower curve; mono-P_RAJ-scale-classing like -rough with an increase <= 2 %; anything else of the same relation is reported under another class",
     ]
 
     def __init__(self):
@@ -1330,6 +1330,9 @@ class C10(Prop):
         mono-P_RAJ-rough / -pa : the P_RAJ class grid (n_bins classes between P_RAJ_klass_max and P_RAJ_D_e) moves with the
             curve - an artefact of the classing: fewer than 1000 classes, a finite increase <= CLASSING_MAX_REL, and the SAME pair
             re-run with CLASSING_FINE classes is monotone to CLASSING_FINE_TOL;
+        mono-P_RAJ-crack-opening-state : roughness / P_A with UNCHANGED loads, and one of the (same) hystereses has a smaller P_RAJ
+            with the lower curve: the crack-opening state machine depends on the curve (relaxation exp(-15 / N) of the previous
+            opening strain) and a case decision flips;
         mono-P_RAJ-scale : crack closure - hystereses of the scaled run have P_RAJ = 0 (the crack stays closed after the larger
             compressive excursion) although the unscaled run's do not."""
         what = case["what"]
@@ -1351,6 +1354,14 @@ class C10(Prop):
             pa_, pb_ = a[k].get("P_RAJ_vals") or [], b[k].get("P_RAJ_vals") or []
             if len(pa_) == len(pb_) and any(y < x * (1 - 1e-9) for x, y in zip(pa_, pb_)):
                 return "mono-P_RAJ-scale"
+        if what in ("rough", "pa"):
+            # same loads, same recorded hystereses, another component curve: the crack-opening state of damage_parameter.P_RAJ
+            # depends on the curve (after a 'case 3' hysteresis the previous opening strain relaxes with exp(-15 / N), N from the
+            # curve); a later case decision (eps_max < eps_open_alt: crack stays closed) can flip and a hysteresis gets a SMALLER
+            # P_RAJ with the lower curve
+            pa_, pb_ = a[k].get("P_RAJ_vals") or [], b[k].get("P_RAJ_vals") or []
+            if len(pa_) == len(pb_) and any(y < x * (1 - 1e-9) for x, y in zip(pa_, pb_)):
+                return "mono-P_RAJ-crack-opening-state"
         open_class = {"rough": "mono-P_RAJ-rough", "pa": "mono-P_RAJ-pa", "scale": "mono-P_RAJ-scale-classing"}[what]
         nb = case["par"].get("nbinsJ") or 200
         if nb < 1000 and kind == "lifetime" and inc <= CLASSING_MAX_REL[what]:
